@@ -1308,9 +1308,18 @@ class Interp:
                 # for ... in None / in a number: TypeError
                 yield st1, self._exc("TypeError", "'%s' object is not iterable" % ("NoneType" if it is None else type(it).__name__))
                 continue
-            items = self.iterate(it, st1)
+            from .loops import iterate_watched
 
-            def run(st2, k):
+            items, watch = iterate_watched(self, st1, it)
+
+            def run(st2, k, it=it, items=items, watch=watch):
+                if k > 0 and (watch or isinstance(it, Ref)):
+                    # the comprehension's own element / condition expressions must not change what it iterates
+                    from .loops import lazy_check, _same_items
+
+                    lazy_check(st2, watch)
+                    if isinstance(it, Ref) and st2.get(it).kind == "list" and not _same_items(st2.get(it).items, items):
+                        raise Unsupported("a list is changed by the comprehension that iterates it")
                 if k == len(items):
                     yield st2, None
                     return
@@ -1375,7 +1384,12 @@ class Interp:
 
     def ev_GeneratorExp(self, node, st):
         self.trust("genexp-eager", "generator expressions are evaluated eagerly (pure element expressions)")
-        yield from self.ev_ListComp(node, st)
+        from .loops import lazy_begin, lazy_end
+
+        old = lazy_begin(st)
+        for st1, r in self.ev_ListComp(node, st):
+            lazy_end(st1, old, r)
+            yield st1, r
 
     def ev_SetComp(self, node, st):
         for st1, r in self.ev_ListComp(node, st):
